@@ -1,3 +1,4 @@
+import Chartparse.Proofs.ReSound
 import Chartparse.Proofs.ReDispatch
 import Chartparse.Proofs.ReLyric
 import Chartparse.Proofs.ReNorm
@@ -106,5 +107,21 @@ theorem C09_order_matters :
 
 /-- non-vacuity: a lyric with inner quotes and blanks, Arabic-Indic tick -/
 example : decodeKind 6 (cp "  ١٢ = E \"lyric say \"hi\" \" ") = some (.ev 6 12 (cp "say \"hi\" ")) := by decide
+
+/-- **C09 ⇔**: what the three shipped recognisers accept, exactly -/
+theorem C09_text_sound (s : Str) (caps : Caps) (h : Gen.textRe.matchGroups s = some caps) :
+    ∃ p t v q, s = p ++ (t ++ ([32, 61, 32, 69, 32, 34] ++ (v ++ 34 :: q))) ∧ AllIn .space p ∧ AllIn .digit t ∧ t ≠ [] ∧
+      AllIn (.notLit 34) v ∧ AllIn .space q ∧ caps = [(2, v), (1, t)] := by
+  rw [matchGroups_of_norm_eq gen_text_is_template] at h; exact Chartparse.Rx.text_sound s caps h
+
+theorem C09_lyric_sound (s : Str) (caps : Caps) (h : Gen.lyricRe.matchGroups s = some caps) :
+    ∃ p t v q, s = p ++ (t ++ ([32, 61, 32, 69, 32, 34, 108, 121, 114, 105, 99, 32] ++ (v ++ 34 :: q))) ∧ AllIn .space p ∧
+      AllIn .digit t ∧ t ≠ [] ∧ AllIn .any v ∧ AllIn .space q ∧ caps = [(2, v), (1, t)] := by
+  rw [matchGroups_of_norm_eq gen_lyric_is_template] at h; exact Chartparse.Rx.lyric_sound s caps h
+
+theorem C09_section_sound (s : Str) (caps : Caps) (h : Gen.sectionRe.matchGroups s = some caps) :
+    ∃ p t v q, s = p ++ (t ++ ([32, 61, 32, 69, 32, 34, 115, 101, 99, 116, 105, 111, 110, 32] ++ (v ++ 34 :: q))) ∧
+      AllIn .space p ∧ AllIn .digit t ∧ t ≠ [] ∧ AllIn .any v ∧ AllIn .space q ∧ caps = [(2, v), (1, t)] := by
+  rw [matchGroups_of_norm_eq gen_section_is_template] at h; exact Chartparse.Rx.section_sound s caps h
 
 end Chartparse.Props.C09
